@@ -11,7 +11,7 @@ import json, os, re, subprocess, sys, shutil
 
 def sh(cmd, cwd=None):
     e = dict(os.environ); e["CARGO_NET_OFFLINE"] = "true"
-    p = subprocess.run(cmd, shell=True, cwd=cwd, env=e, stdout=subprocess.PIPE, stderr=subprocess.STDOUT, text=True)
+    p = subprocess.run(cmd, shell=True, cwd=cwd, env=e, stdout=subprocess.PIPE, stderr=subprocess.STDOUT, text=True, errors="replace")
     return p.returncode, p.stdout
 
 REPO = os.environ.get("SEEDREGRESS_REPO", "/repo")
